@@ -23,6 +23,10 @@ use crate::opcodes::OpcodeKind;
 
 impl Generator {
     pub(super) fn generate_internal(&mut self, source: &mut GenerationSource) -> Result<Vec<u8>> {
+        // every call produces one complete, independent pickle: start from a clean
+        // stack, memo and output buffer even if the caller did not reset() in between
+        self.reset();
+
         // decide if we'll use FRAME (only for protocol >= 4, randomly chosen)
         let use_frame = self.state.version >= Version::V4 && source.gen_bool();
 
